@@ -61,6 +61,8 @@ pub const LIST: usize = 4;
 pub const BOOL_REV: usize = 5;
 /// one constructor holding a pair of booleans (nested refutable patterns)
 pub const PB: usize = 6;
+/// a strict superset of BOOL's constructors (definite-error mutants, width relations)
+pub const BIG3: usize = 7;
 
 pub fn data_decls() -> Vec<DataDecl> {
     vec![
@@ -71,6 +73,7 @@ pub fn data_decls() -> Vec<DataDecl> {
         DataDecl { name: "List", recursive: true, ctors: vec![("+Nil", VT::Unit), ("+Cons", VT::Prod(vec![VT::Int, VT::Data(LIST)]))] },
         DataDecl { name: "BoolR", recursive: false, ctors: vec![("+F", VT::Unit), ("+T", VT::Unit)] },
         DataDecl { name: "PB", recursive: false, ctors: vec![("+P", VT::Prod(vec![VT::Data(BOOL), VT::Data(BOOL)]))] },
+        DataDecl { name: "Big3", recursive: false, ctors: vec![("+T", VT::Unit), ("+F", VT::Unit), ("+U", VT::Unit)] },
     ]
 }
 
